@@ -580,7 +580,30 @@ impl<'a, 'b> RtGen<'a, 'b> {
         if self.c.chance(1, 12) {
             self.label("atom=wrapper/readonly/inherited-callable/array-length");
             let nocheck = "*nocheck".to_string();
-            return match self.c.pick(5) {
+            return match self.c.pick(7) {
+                5 => {
+                    // a type imported from another module: nothing is known about its values
+                    let n = self.fresh("Imp");
+                    self.decls.push(format!("import type {{ {n} }} from \"other-types\";"));
+                    self.label("atom=imported-or-unknown-library-type");
+                    RtType {
+                        text: n,
+                        ctors: None,
+                        loose: None,
+                        inhabitants: vec![inh("String"), inh("Number"), inh("Function")],
+                        depth: 0,
+                    }
+                }
+                6 => {
+                    // a library type the transform has no table entry for
+                    self.label("atom=imported-or-unknown-library-type");
+                    let (t, inhs): (&str, Vec<serde_json::Value>) = match self.c.pick(3) {
+                        0 => ("VoidFunction", vec![inh("Function")]),
+                        1 => ("PropertyKey", vec![inh("String"), inh("Number"), inh("Symbol")]),
+                        _ => ("Awaited<string>", vec![inh("String")]),
+                    };
+                    RtType { text: t.into(), ctors: None, loose: None, inhabitants: inhs, depth: 0 }
+                }
                 0 => RtType {
                     text: self.c.choose(&["Array<string>[\"length\"]", "string[][\"length\"]", "[string, number][\"length\"]"]).to_string(),
                     ctors: Some(vec!["Number".into()]),
